@@ -859,6 +859,8 @@ func genC25(g *Gen, idx int) *Plan {
 			p.Cfg.SN.Rules = append(p.Cfg.SN.Rules, Rule{Dir: "g2c", Skip: int(g.Range(0, 8)), Count: int(g.Range(1, 1000)), Act: "werr"})
 		case 1: // the broker stops reading for a while
 			p.Broker.Faults = append(p.Broker.Faults, BrokerFault{AtMs: g.Range(300, sg.t+300), Session: "p1", Kind: "backpressure", Cap: int(g.Range(0, 30)), DurMs: g.Range(120, 3000)})
+		case 2: // the broker cannot be reached: every session's dial is refused or times out
+			p.Broker.DialFail = []string{"refuse", "timeout"}[g.Intn(2)]
 		}
 		p.Cfg.HorizonMs = sg.t + 3000
 		return p
